@@ -20,7 +20,13 @@ def check(chk, thorough=False):
     chk.run('C07.b', 'R-SCHEMA', 'every class used to probe the stream has a completeness check that can say "partial"', lambda ob: c07b(tree, ob), floor=2)
     chk.run('C07.c', 'R-SCHEMA', 'every length-prefixed field is verified against what was actually read, also when the value is empty', lambda ob: c07c(tree, ob), floor=6)
     chk.run('C07.d', 'R-SCHEMA', 'the completeness check accepts every bound message at its minimal encoded length', lambda ob: c07d(tree, ob), floor=7)
+    chk.run('C07.f', 'R-FLOW', 'what is written to the socket is exactly the encoded messages: byte buffers only appended and prefix-dropped by what was accepted (= C01.b)', lambda ob: _c01b(tree, ob), floor=7)
     chk.run('C07.e', 'R-SCHEMA', 'message layouts equal RFC 9174 (= C04.h)', lambda ob: c04h(tree, ob), floor=7)
+
+
+def _c01b(tree, ob):
+    from .c01 import c01b
+    return c01b(tree, ob)
 
 
 def c07a(tree, ob):
@@ -163,6 +169,31 @@ def c07c(tree, ob):
         ob.violate(FORMATS, 'verify_sized_item', 'read_len != item_len', 'the size check does not raise on a length mismatch', fv.func)
     else:
         ob.site(FORMATS, fv.func, 'verify_sized_item raises VerifyError on mismatch')
+    # the only way to skip the comparison is an absent length; an empty item must still be compared
+    for r in [x for x in walk_local(fv.func) if isinstance(x, ast.Return)]:
+        cond = fv.cfg.node_of(r)
+        facts = fv.facts(r) or frozenset()
+        guards = [n for n in fv.cfg.nodes if n.kind == 'cond' and fv.cfg.must_pass(fv.cfg.entry, cond, {n})[0]]
+        atoms = set()
+        for g in guards:
+            atoms |= {t for (t, p) in norm.all_atoms(g.ast)}
+        extra = sorted(a for a in atoms if a != 'length is None')
+        if extra:
+            ob.violate(FORMATS, 'verify_sized_item', 'early return under ' + ' / '.join(extra), 'the length check is skipped for a reason other than "no length field": with an empty item a message cut '
+                       'right after its length field is taken as complete', r)
+        else:
+            ob.site(FORMATS, r, 'comparison skipped only when the length is absent')
+    # a length-governed text field keeps its internal value as octets, so that the computed length counts octets
+    cls = tree.klass(FORMATS, 'StrLenFieldUtf8')
+    meths = {m.name: m for m in cls.body if isinstance(m, ast.FunctionDef)}
+    h2i = meths.get('h2i')
+    okenc = h2i is not None and any(isinstance(x, ast.Return) and isinstance(x.value, ast.Call) and isinstance(x.value.func, ast.Attribute) and x.value.func.attr == 'encode'
+                                    for x in walk_local(h2i))
+    if not okenc or 'i2m' in meths or 'm2i' in meths or 'i2len' in meths:
+        ob.violate(FORMATS, 'StrLenFieldUtf8', 'h2i / i2m', 'the node-id text field no longer holds UTF-8 octets internally (conversion moved to the wire step): '
+                   'its length field then counts characters, and a non-ASCII node id is mis-framed', cls)
+    else:
+        ob.site(FORMATS, cls, 'StrLenFieldUtf8 holds octets internally (length counts octets)')
 
 
 def _min_len(tree, rel, cls):
